@@ -5,6 +5,7 @@ import (
 	"errors"
 	"fmt"
 	"sort"
+	"strings"
 
 	"go.opentelemetry.io/otel/metric"
 	"go.opentelemetry.io/otel/metric/noop"
@@ -61,8 +62,19 @@ func (c *recUpDown) Add(_ context.Context, incr int64, _ ...metric.AddOption) {
 func (r *run) runMemLimit() {
 	t := r.tape
 	hp := &histPlan{inDomain: true}
-	hp.signals = []string{[]string{"traces", "logs", "metrics"}[t.Draw(core.Cfg, 3)]}
-	signal := hp.signals[0]
+	all := []string{"traces", "logs", "metrics"}
+	first := t.Draw(core.Cfg, 3)
+	hp.signals = []string{all[first]}
+	// now and then two or three signals on one stream: a batch of another
+	// signal opens fresh sub-streams, so it can be decoded although an earlier
+	// batch was refused
+	switch t.Weighted(core.Cfg, 3, 2, 1) {
+	case 1:
+		hp.signals = []string{all[first], all[(first+1)%3]}
+	case 2:
+		hp.signals = all
+	}
+	signal := strings.Join(hp.signals, "+")
 	opt := defaultOptions()
 	if t.Chance(core.Cfg, 1, 3) {
 		opt = drawOptions(t, true)
@@ -75,14 +87,24 @@ func (r *run) runMemLimit() {
 	producer := arrow_record.NewProducerWithOptions(opt.build(nil, nil)...)
 	defer func() { _ = producer.Close() }()
 	type enc struct {
-		bar  *colarspb.BatchArrowRecords
-		want []Item
+		bar    *colarspb.BatchArrowRecords
+		want   []Item
+		signal string
 	}
 	var stream []enc
 	for i := 0; i < hp.nBatches; i++ {
 		g := &G{t: t, InDomain: true, MaxItems: 3}
-		b := &batchIn{signal: signal}
-		switch signal {
+		if len(hp.signals) > 1 {
+			// batches of different weight: a small batch of another signal can
+			// be decodable after a larger one was refused; larger batches have
+			// buffers of more than one 64-byte allocation unit
+			g.MaxItems = []int{1, 3, 3, 12, 40}[t.Draw(core.Gen, 5)]
+			if g.MaxItems >= 12 {
+				g.Plain = true
+			}
+		}
+		b := &batchIn{signal: hp.signals[t.Draw(core.Gen, len(hp.signals))]}
+		switch b.signal {
 		case "traces":
 			b.td = g.Traces()
 		case "logs":
@@ -95,15 +117,19 @@ func (r *run) runMemLimit() {
 			r.probe("stream_not_encodable")
 			return
 		}
-		stream = append(stream, enc{bar: bar, want: b.canon()})
+		stream = append(stream, enc{bar: bar, want: b.canon(), signal: b.signal})
 		r.sig.Int(int64(len(bar.ArrowPayloads)))
 	}
 
 	// replay the stream under limit L; returns the number of leading batches
 	// decoded completely and the first refusal.
+	// outcome: per batch 'o' decoded completely, 'm' refused with the
+	// memory-limit error, 'e' rejected with another error (only after a refusal,
+	// when the batch continues a sub-stream the consumer has dropped).
 	type result struct {
 		prefix  int
 		refusal *carrow.LimitError
+		outcome []byte
 	}
 	replay := func(L uint64) result {
 		mp := &recMeterProvider{}
@@ -113,7 +139,7 @@ func (r *run) runMemLimit() {
 		broken := false
 		for i, e := range stream {
 			r.batch = i
-			got, _, err, pan := decode(c, signal, cloneBar(e.bar))
+			got, _, err, pan := decode(c, e.signal, cloneBar(e.bar))
 			if r.o.Render {
 				r.logf("limit %d: batch %d -> err=%v panic=%v items=%d inuse=%d", L, i, err, pan != "", len(got), mp.inuse)
 			}
@@ -131,8 +157,21 @@ func (r *run) runMemLimit() {
 			}
 			if broken {
 				// after a refusal the stream is broken: later batches may be
-				// rejected with any error (or decode, if they start new IPC
-				// streams); only no-panic and the in-use bound are checked
+				// rejected with any error, or decode if they start new IPC
+				// streams - and then they must decode completely
+				switch {
+				case err == nil:
+					if d := DiffItems(e.want, got); d != "" {
+						r.violate("C14", "complete-or-limit-error", fmt.Sprintf("memory limit %d bytes, batch %d (delivered after an earlier batch had been refused) returned success but not the complete batch: %s", L, i, d))
+						return res
+					}
+					res.outcome = append(res.outcome, 'o')
+					r.probe("batch_decoded_after_a_refused_batch")
+				case errors.Is(err, arrow_record.ErrConsumerMemoryLimit):
+					res.outcome = append(res.outcome, 'm')
+				default:
+					res.outcome = append(res.outcome, 'e')
+				}
 				continue
 			}
 			if err != nil {
@@ -146,6 +185,7 @@ func (r *run) runMemLimit() {
 				}
 				r.fault("allocation_refused")
 				broken = true
+				res.outcome = append(res.outcome, 'm')
 				continue
 			}
 			if d := DiffItems(e.want, got); d != "" {
@@ -153,6 +193,7 @@ func (r *run) runMemLimit() {
 				return res
 			}
 			res.prefix = i + 1
+			res.outcome = append(res.outcome, 'o')
 		}
 		return res
 	}
@@ -167,6 +208,7 @@ func (r *run) runMemLimit() {
 		maxSteps = 1500
 	}
 	prefixAt := map[uint64]int{}
+	outcomeAt := map[uint64]string{}
 	check := func(L uint64, res result) {
 		if res.prefix < lastPrefix {
 			r.violate("C14", "monotone", fmt.Sprintf("%d leading batches decoded under a limit of %d bytes but only %d under the larger limit of %d bytes", lastPrefix, lastL, res.prefix, L))
@@ -181,6 +223,7 @@ func (r *run) runMemLimit() {
 		check(L, res)
 		walked = append(walked, L)
 		prefixAt[L] = res.prefix
+		outcomeAt[L] = string(res.outcome)
 		if res.prefix == len(stream) {
 			r.probe("walk_reached_full_decode")
 			break
@@ -211,6 +254,7 @@ func (r *run) runMemLimit() {
 			}
 			check(extra, res)
 			prefixAt[extra] = res.prefix
+			outcomeAt[extra] = string(res.outcome)
 		}
 	}
 	// The walk only visits limits of the form in-use + requested, which are
@@ -220,8 +264,18 @@ func (r *run) runMemLimit() {
 	// everything that was tried.
 	if len(r.out.Violations) == 0 && len(walked) > 0 {
 		stride := 1 + len(walked)/10
-		for i := len(walked) - 1; i >= 0 && len(r.out.Violations) == 0; i -= stride {
-			for _, off := range []int64{-1, 1, 33} {
+		for i := len(walked) - 1; i >= 0 && len(r.out.Violations) == 0; i-- {
+			offs := []int64{-1, 1, 33}
+			if (len(walked)-1-i)%stride != 0 {
+				// one byte below every allocation boundary on streams where a
+				// batch can be decoded after a refused one: what an interrupted
+				// allocation sequence leaves behind changes exactly there
+				if len(hp.signals) == 1 {
+					continue
+				}
+				offs = offs[:1]
+			}
+			for _, off := range offs {
 				l := int64(walked[i]) + off
 				if l < 0 {
 					continue
@@ -234,6 +288,7 @@ func (r *run) runMemLimit() {
 					break
 				}
 				prefixAt[uint64(l)] = res.prefix
+				outcomeAt[uint64(l)] = string(res.outcome)
 				r.probe("limits_between_allocation_boundaries")
 			}
 		}
@@ -245,6 +300,26 @@ func (r *run) runMemLimit() {
 		for i := 1; i < len(ls) && len(r.out.Violations) == 0; i++ {
 			if prefixAt[ls[i]] < prefixAt[ls[i-1]] {
 				r.violate("C14", "monotone", fmt.Sprintf("%d leading batches decoded under a limit of %d bytes but only %d under the larger limit of %d bytes", prefixAt[ls[i-1]], ls[i-1], prefixAt[ls[i]], ls[i]))
+			}
+		}
+		// the same for batches delivered after a refused one: two consumers
+		// that differ only in their limit and have seen the same outcomes so
+		// far - the batch the smaller limit decodes must not be refused for
+		// memory by the larger one
+		for i := 0; i < len(ls) && len(r.out.Violations) == 0; i++ {
+			a := outcomeAt[ls[i]]
+			for j := i + 1; j < len(ls) && len(r.out.Violations) == 0; j++ {
+				b := outcomeAt[ls[j]]
+				for k := 0; k < len(a) && k < len(b); k++ {
+					if a[k] == 'o' && b[k] == 'm' && strings.IndexByte(a[:k], 'm') >= 0 {
+						r.feats["class"] = "after-refusal"
+						r.violate("C14", "monotone", fmt.Sprintf("batch %d, delivered after the same outcomes of the earlier batches (%s), decodes under a limit of %d bytes and is refused for memory under the larger limit of %d bytes (outcomes %s vs %s; o = decoded, m = refused for memory, e = rejected)", k, a[:k], ls[i], ls[j], a, b))
+						break
+					}
+					if a[k] != b[k] {
+						break
+					}
+				}
 			}
 		}
 	}
